@@ -302,7 +302,13 @@ def obligations(tier: str):
         Chx("executor_hooks", h_executor_hooks, timeout=T),
     ]
     if q:
-        obs.append(Chx("history", h_history, timeout=T, fix={"e3": 0, "c3": 0, "a3": 3, "w3": 0, "a1": 4, "a2": 4}, split={"e1": [0, 1, 2, 3, 6], "w1": [0, 1, 4, 7]}))
+        obs.append(Chx("history", h_history, timeout=T, fix={"e3": 0, "c3": 0, "a3": 3, "w3": 0, "a1": 4, "a2": 4},
+                       split={"e1": [0, 1, 2, 3, 6], "w1": [0, 1, 4, 7]}))
     else:
-        obs.append(Chx("history", h_history, timeout=T, split={"e1": [0, 1, 2, 3, 6], "e2": [0, 1, 2, 3, 6], "w1": list(range(9))}))
+        # three raising events on the raising object (a = 4); the compare operator of each event is tied to a
+        # fixed representative so that one obligation stays at a few hundred paths
+        obs.append(Chx("history", h_history, timeout=T, fix={"a1": 4, "a2": 4, "a3": 4, "c1": 0, "c2": 1, "c3": 2},
+                       split={"e1": [0, 1, 2, 3, 6], "e2": [0, 1, 2, 3, 6], "w1": list(range(9))}))
+        obs.append(Chx("history_ops", h_history, timeout=T, fix={"a1": 4, "a2": 4, "a3": 4, "e1": 0, "e2": 0, "e3": 0, "w2": 0, "w3": 1},
+                       split={"c1": [0, 1, 2, 3], "w1": [0, 1]}))
     return obs
